@@ -201,8 +201,18 @@ type opRec struct {
 	Obs  string `json:"obs"`
 }
 
+// wipe overwrites a buffer the caller handed to the XOF: an implementation that
+// keeps a reference instead of a copy will see garbage later (e.g. at Reset)
+func wipe(b []byte) {
+	for i := range b {
+		b[i] ^= 0xa5
+	}
+}
+
 func xofCase(r *vh.Rng, rep *vh.Report, cf *vh.CaseFile, id, kind int, seed []byte, nops int) {
-	pool := []kyber.XOF{newXof(kind, seed)}
+	callerSeed := append(make([]byte, 0, len(seed)+r.Intn(40)), seed...) // spare capacity too
+	pool := []kyber.XOF{newXof(kind, callerSeed)}
+	wipe(callerSeed)
 	mir := []*mirror{mirrorNew(kind, seed)}
 	tbl := &table{kind: kind, entries: map[string]*entry{}}
 	var ops, obs []string
@@ -235,7 +245,9 @@ func xofCase(r *vh.Rng, rep *vh.Report, cf *vh.CaseFile, id, kind int, seed []by
 			}
 		case c < 55: // Write (panics after a read)
 			data := r.Bytes(r.Pick(chunkLens) % 140)
-			panicked, _ = vh.Try(func() { x.Write(data) })
+			callerData := append([]byte{}, data...)
+			panicked, _ = vh.Try(func() { x.Write(callerData) })
+			wipe(callerData)
 			ops = append(ops, fmt.Sprintf("wr %d %s", v, vh.CoqBytes(data)))
 			obs = append(obs, "OUnit")
 			m.abs = append(m.abs, data...)
@@ -274,7 +286,7 @@ func xofCase(r *vh.Rng, rep *vh.Report, cf *vh.CaseFile, id, kind int, seed []by
 			rec = opRec{"Reseed", v, 0, "", ""}
 			rep.Dist("op:Reseed")
 		case c < 90: // Reset (mostly on the factory object)
-			if v != 0 && r.Chance(80) {
+			if v != 0 && r.Chance(55) {
 				v = 0
 				x, m = pool[0], mir[0]
 			}
@@ -373,8 +385,15 @@ func randomHistory(r *vh.Rng, x kyber.XOF, n int, allowReset bool) (hist []strin
 // Reset of a factory XOF returns it to the seeded initial state.
 func oracleReset(r *vh.Rng, rep *vh.Report, kind int) {
 	seed := r.Bytes(r.Pick(seedLens))
-	x := newXof(kind, seed)
+	callerSeed := append(make([]byte, 0, len(seed)+8), seed...)
+	x := newXof(kind, callerSeed)
+	wipe(callerSeed) // the caller may reuse its buffer
 	hist, _ := randomHistory(r, x, 1+r.Intn(8), true)
+	if r.Chance(40) { // a clone that is reset must not disturb the original
+		c := x.Clone()
+		vh.Try(func() { c.Reset(); c.Read(make([]byte, 40)) })
+		hist = append(hist, "Clone;clone.Reset;clone.Read 40")
+	}
 	x.Reset()
 	got := make([]byte, 96)
 	x.Read(got)
@@ -621,16 +640,26 @@ func intCase(r *vh.Rng, rep *vh.Report, cf *vh.CaseFile, id, c int) {
 
 // ---- multi-reader random stream
 
+// limReader delivers its data in pieces of at most chunk bytes (0 = as much as asked),
+// optionally returning the last piece together with io.EOF: all legal io.Reader behaviours.
 type limReader struct {
-	data []byte
+	data    []byte
+	chunk   int
+	eofWith bool
 }
 
 func (l *limReader) Read(p []byte) (int, error) {
 	if len(l.data) == 0 {
 		return 0, io.EOF
 	}
+	if l.chunk > 0 && len(p) > l.chunk {
+		p = p[:l.chunk]
+	}
 	n := copy(p, l.data)
 	l.data = l.data[n:]
+	if l.eofWith && len(l.data) == 0 {
+		return n, io.EOF
+	}
 	return n, nil
 }
 
@@ -652,7 +681,9 @@ func rsCase(r *vh.Rng, rep *vh.Report, cf *vh.CaseFile, id int) {
 		}
 		d := r.Bytes(n)
 		rd = append(rd, d)
-		readers = append(readers, &limReader{data: append([]byte{}, d...)})
+		chunk := []int{0, 0, 1, 7, 31, 33}[r.Intn(6)]
+		readers = append(readers, &limReader{data: append([]byte{}, d...), chunk: chunk, eofWith: r.Chance(30)})
+		rep.Dist(fmt.Sprintf("rs:reader-chunk=%d", chunk))
 		coqReaders = append(coqReaders, vh.CoqBytes(d))
 		if n >= 32 {
 			working++
